@@ -188,14 +188,16 @@ package annotations
 //@ pure func toHasP(l []TestOnlyAnnotation, k TestOnlyKind, recv string, name string, p token.Pos) bool = exists i int :: 0 <= i && i < len(l) && l[i].Kind == k && l[i].ReceiverType == recv && l[i].ObjectName == name && l[i].Pos == p
 //@ pure func poHasP(l []PackageOnlyAnnotation, k TestOnlyKind, recv string, name string, p token.Pos, x string) bool = exists i int :: 0 <= i && i < len(l) && l[i].Kind == k && l[i].ReceiverType == recv && l[i].ObjectName == name && l[i].Pos == p && contains(l[i].AllowedPackages, x)
 //@ pure func implHasP(l []ImplementsAnnotation, t string, p token.Pos, text string) bool = exists i int :: 0 <= i && i < len(l) && implFields(l[i], text, t, p)
-// @mutable entries: field fname at position p of the @immutable struct type t (t's spec at tp)
-//@ pure func mutHasQ(l []MutableAnnotation, t string, fname string, p token.Pos) bool = exists i int :: 0 <= i && i < len(l) && l[i].OnType == t && l[i].FieldName == fname && l[i].Pos == p
 //@ pure func immHasP(l []ImmutableAnnotation, t string, p token.Pos) bool = exists i int :: 0 <= i && i < len(l) && l[i].OnType == t && l[i].OnTypePos == p
 
 // @mutable: doc comment lines of the named fields of a struct type
 //@ pure func namesHit(fd *ast.Field, n int, fname string, p token.Pos) bool = exists j int :: 0 <= j && j < n && j < len(fd.Names) && fd.Names[j].Name == fname && fd.Names[j].Pos() == p
 //@ pure func fieldsHit(st *ast.StructType, n int, fname string, p token.Pos) bool = exists q int :: 0 <= q && q < n && q < len(st.Fields.List) && st.Fields.List[q].Doc != nil && namesHit(st.Fields.List[q], len(st.Fields.List[q].Names), fname, p) && docHit(6, st.Fields.List[q].Doc, len(st.Fields.List[q].Doc.List), "", "")
-//@ macro func mutHasP(l []MutableAnnotation, t string, fname string, p token.Pos) bool = exists i int :: 0 <= i && i < len(l) && l[i].OnType == t && l[i].FieldName == fname && l[i].Pos == p
+// @mutable lines take effect for the named fields of struct types that carry an @immutable line
+//@ pure func mspecsHit(gd *ast.GenDecl, n int, t string, fname string, p token.Pos, cur string) bool = exists s int :: 0 <= s && s < n && s < len(gd.Specs) && typeis(gd.Specs[s], *ast.TypeSpec) && cast(gd.Specs[s], *ast.TypeSpec).Name.Name == t && docOf(gd, cast(gd.Specs[s], *ast.TypeSpec)) != nil && docHit(1, docOf(gd, cast(gd.Specs[s], *ast.TypeSpec)), len(docOf(gd, cast(gd.Specs[s], *ast.TypeSpec)).List), "", cur) && typeis(cast(gd.Specs[s], *ast.TypeSpec).Type, *ast.StructType) && fieldsHit(cast(cast(gd.Specs[s], *ast.TypeSpec).Type, *ast.StructType), len(cast(cast(gd.Specs[s], *ast.TypeSpec).Type, *ast.StructType).Fields.List), fname, p)
+//@ pure func mdeclsHit(f *ast.File, n int, t string, fname string, p token.Pos, cur string) bool = exists d int :: 0 <= d && d < n && d < len(f.Decls) && typeis(f.Decls[d], *ast.GenDecl) && cast(f.Decls[d], *ast.GenDecl).Tok == token.TYPE && mspecsHit(cast(f.Decls[d], *ast.GenDecl), len(cast(f.Decls[d], *ast.GenDecl).Specs), t, fname, p, cur)
+//@ pure func mfilesHit(fs []*ast.File, n int, t string, fname string, p token.Pos, cur string) bool = exists f int :: 0 <= f && f < n && f < len(fs) && mdeclsHit(fs[f], len(fs[f].Decls), t, fname, p, cur)
+//@ pure func mutHasP(l []MutableAnnotation, t string, fname string, p token.Pos) bool = exists i int :: 0 <= i && i < len(l) && l[i].OnType == t && l[i].FieldName == fname && l[i].Pos == p
 //@ func readFieldAnnotationsForType
 //@   props C15 C09 C10
 //@   merge
@@ -234,6 +236,7 @@ package annotations
 //@   ensures forall t string, p token.Pos, x string :: implHasP(result.ImplementsAnnotations, t, p, x) <==> (exists f *ast.File :: contains(pass.Files, f) && !skipFile(cfg, pass, f) && declsHit(5, f, len(f.Decls), t, p, x, cur))
 //@   ensures forall k TestOnlyKind, recv string, name string, p token.Pos :: toHasP(result.TestonlyAnnotations, k, recv, name, p) <==> (exists f *ast.File :: contains(pass.Files, f) && !skipFile(cfg, pass, f) && ((k == TestOnlyOnType && recv == "" && declsHit(2, f, len(f.Decls), name, p, "", cur)) || fdeclsHit(2, f, len(f.Decls), k, recv, name, p, "", cur)))
 //@   ensures forall k TestOnlyKind, recv string, name string, p token.Pos, x string :: poHasP(result.PackageOnlyAnnotations, k, recv, name, p, x) <==> (exists f *ast.File :: contains(pass.Files, f) && !skipFile(cfg, pass, f) && ((k == TestOnlyOnType && recv == "" && declsHit(4, f, len(f.Decls), name, p, x, cur)) || fdeclsHit(4, f, len(f.Decls), k, recv, name, p, x, cur)))
+//@   ensures forall t string, fname string, p token.Pos :: mutHasP(result.MutableAnnotations, t, fname, p) <==> (exists f *ast.File :: contains(pass.Files, f) && !skipFile(cfg, pass, f) && mdeclsHit(f, len(f.Decls), t, fname, p, cur))
 //@   loop 1 frame
 //@   loop 2 frame
 //@   loop 3 frame
@@ -265,3 +268,7 @@ package annotations
 //@   loop 5 invariant forall k TestOnlyKind, recv string, name string, p token.Pos, x string :: poHasP(packageonly, k, recv, name, p, x) <==> ((k == TestOnlyOnType && recv == "" && filesHit(4, $seq1, $i1, name, p, x, currentPkgPath)) || ffilesHit(4, $seq1, $i1, k, recv, name, p, x, currentPkgPath) || (k == TestOnlyOnType && recv == "" && declsHit(4, file, $i3, name, p, x, currentPkgPath)) || (k == TestOnlyOnType && recv == "" && specsHit(4, genDecl, $i4, name, p, x, currentPkgPath)) || (k == TestOnlyOnType && recv == "" && name == typeName && p == pos && docHit(4, doc, $i, x, currentPkgPath)))
 //@   loop 6 invariant forall k TestOnlyKind, recv string, name string, p token.Pos, x string :: poHasP(packageonly, k, recv, name, p, x) <==> ((k == TestOnlyOnType && recv == "" && filesHit(4, $seq1, $i1, name, p, x, currentPkgPath)) || ffilesHit(4, $seq1, $i1, k, recv, name, p, x, currentPkgPath) || (k == TestOnlyOnType && recv == "" && declsHit(4, file, len(file.Decls), name, p, x, currentPkgPath)) || fdeclsHit(4, file, $i, k, recv, name, p, x, currentPkgPath))
 //@   loop 7 invariant forall k TestOnlyKind, recv string, name string, p token.Pos, x string :: poHasP(packageonly, k, recv, name, p, x) <==> ((k == TestOnlyOnType && recv == "" && filesHit(4, $seq1, $i1, name, p, x, currentPkgPath)) || ffilesHit(4, $seq1, $i1, k, recv, name, p, x, currentPkgPath) || (k == TestOnlyOnType && recv == "" && declsHit(4, file, len(file.Decls), name, p, x, currentPkgPath)) || fdeclsHit(4, file, $i6, k, recv, name, p, x, currentPkgPath) || (k == kind && recv == receiverType && name == funcName && p == pos && docHit(4, funcDecl.Doc, $i, x, currentPkgPath)))
+//@   loop 1 invariant forall t string, fname string, p token.Pos :: mutHasP(mutables, t, fname, p) <==> mfilesHit($seq, $i, t, fname, p, currentPkgPath)
+//@   loop 3 invariant forall t string, fname string, p token.Pos :: mutHasP(mutables, t, fname, p) <==> (mfilesHit($seq1, $i1, t, fname, p, currentPkgPath) || mdeclsHit(file, $i, t, fname, p, currentPkgPath))
+//@   loop 4 invariant forall t string, fname string, p token.Pos :: mutHasP(mutables, t, fname, p) <==> (mfilesHit($seq1, $i1, t, fname, p, currentPkgPath) || mdeclsHit(file, $i3, t, fname, p, currentPkgPath) || mspecsHit(genDecl, $i, t, fname, p, currentPkgPath))
+//@   loop 5 invariant forall t string, fname string, p token.Pos :: mutHasP(mutables, t, fname, p) <==> (mfilesHit($seq1, $i1, t, fname, p, currentPkgPath) || mdeclsHit(file, $i3, t, fname, p, currentPkgPath) || mspecsHit(genDecl, $i4, t, fname, p, currentPkgPath) || (t == typeName && docHit(1, doc, $i, "", currentPkgPath) && typeis(typeSpec.Type, *ast.StructType) && fieldsHit(cast(typeSpec.Type, *ast.StructType), len(cast(typeSpec.Type, *ast.StructType).Fields.List), fname, p)))
